@@ -317,7 +317,7 @@ class Exec:
                     st = self.clone(st)
                     for l in lhs:
                         if l[0] == 'id' and l[1] != '_':
-                            st['vars'][l[1]] = V('opaque', d='multi')
+                            st['vars'][l[1]] = V('opaque', d=unparse(rhs[0]))
                     return self.cat(ev, k(st, None))
                 raise Unsupported('assignment arity')
             evs = []
@@ -333,7 +333,7 @@ class Exec:
                         # name the value with a let so the generated term stays readable
                         nm = re.sub(r'\W', '_', l[1])
                         pre = (nm, v['e'])
-                        v = self.Int(nm)
+                        v = dict(v); v['e'] = nm
                     st['vars'][l[1]] = v
                 else:
                     evs.append(self.store(l, v, st))
@@ -388,7 +388,7 @@ class Exec:
                 if coll['k'] == 'map':
                     st2['vars'][kx[1]] = V('opaque', d='mapkey')
                 else:
-                    st2['vars'][kx[1]] = self.Int(f'(Int.ofNat {iv})')
+                    st2['vars'][kx[1]] = self.Int(f'(({iv} : Nat) : Int)')
             if vx is not None and vx[1] != '_':
                 if coll['k'] == 'islice':
                     st2['vars'][vx[1]] = self.Int(f'E.i {key("elem", coll["name"])}') if False else V('int', e=f'(E.i ({lstr("elem")}, [{lstr(coll["name"])}, toString {iv}]))')
@@ -397,7 +397,7 @@ class Exec:
             self.check_loop_body(body, st2)
             inner = self.block(body[1], st2, lambda s3, ret: '[]')
             n = coll['len']
-            loop = f'((List.range ({n}).toNat).flatMap fun {iv} => {inner})'
+            loop = f'((List.range (Int.toNat ({n}))).flatMap fun {iv} => {inner})'
             return self.cat(ev, loop, k(st, None))
         if t == 'for':
             raise Unsupported('general for loop')
@@ -500,6 +500,8 @@ class Exec:
             return v['nil']
         if v['k'] in ('gptr', 'cobj', 'gobj'):
             return False
+        if v['k'] == 'opaque':
+            return f'(E.b {key("nil", v["d"])} = true)'
         raise Unsupported('nil comparison of ' + v['k'])
 
     # ---- stores
@@ -756,7 +758,7 @@ class Exec:
             if v['k'] == 'bool':
                 return V('bool', e=v['e'], text=v.get('text', unparse(args[0])), conv=fu), ev
             if v['k'] == 'cresult':
-                return V('bool', e=f'(E.b {key("call", v["text"])} = true)', text=v['text']), ev
+                return V('bool', e=f'(E.b {key("call", *v["keyparts"])} = true)', text=v['text']), ev
             raise Unsupported(f'{fu} of {v["k"]}')
         if fu == 'unsafe.Pointer' and len(args) == 1:
             v, ev = self.expr(args[0], st)
@@ -819,6 +821,8 @@ class Exec:
                     return V('nilptr', cty=c), ev
                 raise Unsupported('pointer conversion of ' + v['k'])
             if ty.startswith('['):
+                if v['k'] == 'cfun':
+                    return v, ev      # (*[0]byte)(C.f): cgo's spelling of a C function pointer
                 return V('opaque', d='arrayview'), ev
             if v['k'] == 'cptr':
                 pkg, tn = (ty.split('.', 1) if '.' in ty else (self.pkg, ty))
@@ -981,9 +985,9 @@ class Exec:
         ev = f'[.ccall {lstr(name)} {llist(largs)}]'
         cret = self.w.ctype(ret)
         if cret in ('_Bool',):
-            val = V('cresult', text=text, ctype=cret)
+            val = V('cresult', text=text, ctype=cret, keyparts=[name] + texts)
         elif cret in ('size_t', 'int', 'unsigned int', 'uint32_t'):
-            val = V('int', e=f'E.i {key("call", text)}', ctype=cret)
+            val = V('int', e=f'E.i {key("call", name, *texts)}', ctype=cret)
         elif cret == 'void':
             val = V('unit')
         else:
@@ -1004,12 +1008,39 @@ class Exec:
         if k == 'bool':
             return '_Bool' if v.get('conv') == 'C._Bool' else 'go-bool'
         if k == 'cfun':
-            return 'fn:' + v['n']
+            return fn_pointer_type(self.w, v['n'])
         if k == 'cobj':
             return v['cty']
         if k == 'opaque':
             return 'opaque:' + v['d']
         return k
+
+
+def measure_sizes(repo, w):
+    names = sorted(set(w.structs) | {n for n in w.typedefs})
+    arrs = sorted({t for fs in w.structs.values() for _, t in fs if '[' in t and 'unnamed' not in t})
+    with tempfile.TemporaryDirectory(prefix='go2lean_') as td:
+        src = os.path.join(td, 'sz.c')
+        with open(src, 'w') as f:
+            f.write('#include <stdio.h>\n#include <stdint.h>\n')
+            for h in C_HEADERS:
+                f.write(f'#include "{h}"\n')
+            f.write('int main(void) {\n')
+            for n in names:
+                f.write(f'  printf("%s %zu\\n", "{n}", sizeof({n}));\n')
+            for t in arrs:
+                f.write(f'  printf("%s %zu\\n", "{w.ctype(t)}", sizeof({t}));\n')
+            f.write('  return 0; }\n')
+        exe = os.path.join(td, 'sz')
+        r = subprocess.run(['gcc', '-std=c11', '-I', os.path.join(repo, 'include'), src, '-o', exe], capture_output=True, text=True)
+        if r.returncode != 0:
+            raise SystemExit('go2lean: cannot compile the sizeof probe:\n' + r.stderr[-2000:])
+        out = subprocess.run([exe], capture_output=True, text=True).stdout
+    res = {}
+    for line in out.splitlines():
+        n, v = line.rsplit(' ', 1)
+        res[n] = int(v)
+    return res
 
 
 def fn_pointer_type(world, cname):
@@ -1027,7 +1058,7 @@ def main():
     L = []
     A = L.append
     A('/- GENERATED by translate/go2lean.py from lang/go/**/*.go and the C headers — do not edit. -/')
-    A('import JediVerif.Impl.GoMem')
+    A('import JediVerif.Impl.GoMemTac')
     A('set_option maxRecDepth 4000')
     A('namespace Jedi.Gen.Go')
     A('open Jedi.Go')
@@ -1040,6 +1071,11 @@ def main():
     A('/-- exported C variables and their types. -/')
     A('def cVars : List (String × String) := [')
     A(',\n'.join(f'  ({lstr(n)}, {lstr(w.ctype(t))})' for n, t in sorted(w.cvars.items())))
+    A(']')
+    # sizeof of every C type the bindings mention (host ABI: the Go bindings are built with cgo for the host)
+    A('/-- sizeof of the C types, measured with the host C compiler. -/')
+    A('def cSizes : List (String × Int) := [')
+    A(',\n'.join(f'  ({lstr(n)}, {v})' for n, v in sorted(measure_sizes(repo, w).items())))
     A(']')
     # Go struct types
     rows = []
@@ -1099,6 +1135,25 @@ def main():
     A('')
     for n, term in models:
         A(f'def «{n}» (E : Env) : List Ev :=\n  {term}\n')
+    A('/-! memory safety of every modelled function, for every environment (the tactic `go_mem` is in Impl/GoMemTac.lean;\n'
+      'the preconditions `Pre` - what a valid call is - are hand-written in Impl/GoMem.lean) -/')
+    for n, term in models:
+        haves = []
+        for t in sorted(set(re.findall(r'E\.sz "([^"]+)"', term))):
+            haves.append(f'have := h.sz_pos {lstr(t)}')
+        for kx in sorted(set(re.findall(r'E\.i \("len", (\[[^\]]*\])\)', term))):
+            haves.append(f'have := h.len_nonneg {kx}')
+        for kx in sorted(set(re.findall(r'E\.i \("cvar", (\[[^\]]*\])\)', term))):
+            haves.append(f'have := h.cvar_pos {kx}')
+        for fnm, rest in sorted(set(re.findall(r'E\.i \("call", \["(\w+_get_marshalled_length)"((?:, "[^"]*")*)\]\)', term))):
+            haves.append(f'have := h.lenfn_pos {lstr(fnm)} [{rest[2:]}] (by decide)')
+        for fnm, rest in sorted(set(re.findall(r'E\.i \("call", \["(\w+_set_length)"((?:, "[^"]*")*)\]\)', term))):
+            haves.append(f'have := h.setlen_ge {lstr(fnm)} [{rest[2:]}] (by decide)')
+        A(f'theorem «{n}.mem» (E : Env) (h : Valid E) (hp : Pre {lstr(n)} E) : AllOk («{n}» E) := by')
+        for hv in haves:
+            A('  ' + hv)
+        A(f'  go_mem «{n}»')
+        A('')
     A('def models : List (String × (Env → List Ev)) := [')
     A(',\n'.join(f'  ({lstr(n)}, «{n}»)' for n, _ in models))
     A(']')
